@@ -1,6 +1,6 @@
 //go:build verif
 
-package hpke
+package hpke_test
 
 // C07 units negative (a receiver with exactly one coordinate changed does not open what the
 // sender sealed and exports something else - and still computes exactly what RFC 9180
@@ -10,6 +10,7 @@ package hpke
 import (
 	"bytes"
 	"fmt"
+	. "github.com/cloudflare/circl/hpke"
 	"math/big"
 	"testing"
 
@@ -113,7 +114,7 @@ type c07NegJob struct {
 func (j *c07NegJob) id() string { return c07SuiteName(j.suite) + "|" + c07ModeNames[j.mode] }
 
 func c07RunNegative(r *verifmc.Run, col *c07Collector, idx int, j *c07NegJob) {
-	k := j.suite.kemID
+	k := c07K(j.suite)
 	sch := k.Scheme()
 	kn, mn := c07KEMName(k), c07ModeNames[j.mode]
 	cls := kn + "/" + mn
@@ -243,7 +244,7 @@ func c07RunNegative(r *verifmc.Run, col *c07Collector, idx int, j *c07NegJob) {
 		if a.pkS != nil {
 			pkS, refPkS = a.pkS.pk, a.pkS.refPK
 		}
-		pay := map[string]interface{}{"kem": fmt.Sprintf("%#04x", uint16(k)), "kdf": uint16(j.suite.kdfID), "aead": uint16(j.suite.aeadID),
+		pay := map[string]interface{}{"kem": fmt.Sprintf("%#04x", uint16(k)), "kdf": uint16(c07D(j.suite)), "aead": uint16(c07A(j.suite)),
 			"sender_mode": j.mode, "receiver_mode": a.p.mode, "alteration": a.name, "enc": verifmc.FullHex(a.enc), "info": c07Hex(a.p.info),
 			"psk": c07Hex(a.p.psk), "psk_id": c07Hex(a.p.pskID), "skR": verifmc.Hex(a.R.libSK), "pkS": c07Hex(refPkS)}
 		refC, refErr := rhpke.SetupR(rs, a.p.mode, a.enc, a.R.refSK, a.p.info, a.p.psk, a.p.pskID, refPkS, false)
@@ -332,7 +333,7 @@ func c07RunNegative(r *verifmc.Run, col *c07Collector, idx int, j *c07NegJob) {
 // NIST-curve decoder cannot produce an invalid key object). RFC 9180 7.1.4: an all-zero DH
 // output must abort Encap; otherwise enc and the context are what the RFC defines.
 func c07SenderPkR(r *verifmc.Run, col *c07Collector, idx int, j *c07NegJob, S *c07Party, ikmE []byte) {
-	k := j.suite.kemID
+	k := c07K(j.suite)
 	kn := c07KEMName(k)
 	for _, sp := range c07SpecialEncs(k) {
 		caseID := j.id() + "|pkR:" + sp.n
@@ -403,12 +404,12 @@ func TestVerifC07_negative(t *testing.T) {
 	var jobs []*c07NegJob
 	for _, s := range c07AllSuites() {
 		for _, m := range c07Modes {
-			if c07IsAuth(m) && !c07IsDHKEM(s.kemID) {
+			if c07IsAuth(m) && !c07IsDHKEM(c07K(s)) {
 				continue
 			}
 			// enc alterations act below the key schedule: in the quick tier they are run for one
 			// (KDF, AEAD) pair per KEM and mode, in the thorough tier for all nine
-			flips := r.Thorough() || (s.kdfID == KDF_HKDF_SHA256 && s.aeadID == AEAD_AES128GCM)
+			flips := r.Thorough() || (c07D(s) == KDF_HKDF_SHA256 && c07A(s) == AEAD_AES128GCM)
 			jobs = append(jobs, &c07NegJob{s, m, flips})
 		}
 	}
@@ -457,15 +458,15 @@ type c07Op struct {
 
 func c07Ops(k KEM) []c07Op {
 	ops := []c07Op{
-		{"Setup", modeBase, nil, nil, 0},
-		{"SetupPSK(P,ID)", modePSK, c07PSK, c07PSKID, 0},
-		{"SetupPSK(P',ID')", modePSK, c07PSK2, c07PSKID2, 0},
+		{"Setup", c07MBase, nil, nil, 0},
+		{"SetupPSK(P,ID)", c07MPSK, c07PSK, c07PSKID, 0},
+		{"SetupPSK(P',ID')", c07MPSK, c07PSK2, c07PSKID2, 0},
 	}
 	if c07IsDHKEM(k) {
 		ops = append(ops,
-			c07Op{"SetupAuth(S)", modeAuth, nil, nil, 0},
-			c07Op{"SetupAuth(S')", modeAuth, nil, nil, 1},
-			c07Op{"SetupAuthPSK(S,P,ID)", modeAuthPSK, c07PSK, c07PSKID, 0})
+			c07Op{"SetupAuth(S)", c07MAuth, nil, nil, 0},
+			c07Op{"SetupAuth(S')", c07MAuth, nil, nil, 1},
+			c07Op{"SetupAuthPSK(S,P,ID)", c07MAuthPSK, c07PSK, c07PSKID, 0})
 	}
 	return ops
 }
